@@ -1,4 +1,5 @@
 """C10 - verified claims back quality-adjusted power and obey their terms."""
+import re
 from core import *
 from rules import *
 import sends as sendsmod
@@ -85,6 +86,25 @@ def run(prog, rep, tier, cfg):
         rep.need('K6b', 'extend:drop-test-applies-when-dropping', okd, 'the end-of-life test is applied on the path where declared and maintained space differ', X.loc(ES, c.bb))
     X.value_from('K10', 'extend:new-weight-from-maintained-space', ES, X.stmt_rvalue_atoms(ES, 'SectorOnChainInfo', 'verified_deal_weight', narrow=False) or
                  [(bb, prog.slicer.call(ES, ES.call_at(bb))) for bb in wv if ES.call_at(bb)], ['C:BTreeMap::<K, V, A>::get', 'P:2'], 'new verified weight = maintained space x new duration')
+    # ---- every sector info that is given a (new) verified weight is marked SIMPLE_QA_POWER: that flag is what routes a later
+    # extension through the claim check (`extend_simple_qap_sector`); an unmarked sector keeps or loses verified weight unchecked
+    n_flag = 0
+    for f in prog.bodies():
+        if f.crate != MI or f.kind in ('promoted', 'const') or NEUTRAL.search(f.id):
+            continue
+        for (bb, a) in X.agg_field_atoms(f, 'SectorOnChainInfo', 'flags', narrow=False):
+            n_flag += 1
+            rep.need('K10', 'simple-qap-flag:new-sector:%s' % f.id.split('::')[-1].strip('{}'), has_atom(a, 'K:SIMPLE_QA_POWER'), 'a new sector is marked SIMPLE_QA_POWER', X.loc(f, bb))
+    UE = X.fn('update_existing_sector_info', MI)
+    wv2 = X.write_blocks(UE, 'SectorOnChainInfo', 'verified_deal_weight', kinds=('assign', 'calldst'))
+    sets = [c for c in UE.calls if re.search(r'SectorOnChainInfoFlags>?::(set|insert)$', c.callee or '') and has_atom(prog.slicer.operand(UE, c.args[1]), 'K:SIMPLE_QA_POWER')
+            and X.updates_field(c, 'SectorOnChainInfo', 'flags') and (len(c.args) < 3 or has_atom(prog.slicer.operand(UE, c.args[2]), 'V:1'))]
+    ors = [bb for (bb, a) in X.stmt_rvalue_atoms(UE, 'SectorOnChainInfo', 'flags', narrow=False) if has_atom(a, 'K:SIMPLE_QA_POWER')]
+    rep.need('K10', 'simple-qap-flag:replica-update', bool(wv2) and (bool(sets) or bool(ors)), 'a sector whose data (and verified weight) is replaced is marked SIMPLE_QA_POWER', X.loc(UE))
+    rep.floor('K10', 'sector_info_flag_sites', n_flag, 2)
+    EC = X.fn('extend_sector_committment', MI)
+    X.guard('K6b', 'extend:simple-qap-sectors-check-claims', EC, [c.bb for c in EC.calls if callee_is('extend_non_simple_qap_sector')(c)],
+            m_boolatoms(['K:SIMPLE_QA_POWER', 'F:SectorOnChainInfo.flags'], False), 'only sectors without SIMPLE_QA_POWER take the legacy extension path')
     # ---- registry: term_max never decreases
     EX = X.fn('Actor::extend_claim_terms', VR)
     for g in prog.closures_of(EX.id, recursive=False):
